@@ -1,9 +1,12 @@
 #!/bin/bash
-# run every seeded change of the given properties against that property's quick check; results appended to /verif/seeded/RESULTS.txt
-for p in "$@"; do
-  for d in /verif/seeded/$p-*; do
-    id=$(basename $d)
-    timeout 1500 /verif/tools/mutest.sh $id $p 2>&1 | grep "^== mutant" | tee -a /verif/seeded/RESULTS.txt
-    git -C /repo checkout -- . 2>/dev/null
-  done
-done
+# usage: mutall.sh [props...]   runs every seeded change of the given properties (default: all) against that property's
+# quick check on scratch worktrees (tools/mutest.sh), three at a time; rewrites /verif/seeded/RESULTS.txt
+props=${@:-$(ls /verif/seeded | grep -o "^C[0-9]*" | sort -u)}
+tmp=$(mktemp -d /tmp/mutall.XXXXXX)
+for p in $props; do
+  for d in /verif/seeded/$p-*; do echo "$(basename $d) $p"; done
+done | xargs -P 3 -L 1 sh -c 'timeout 2400 /verif/tools/mutest.sh $0 $1 2>&1 | grep "^== mutant" > '"$tmp"'/$0.txt'
+if [ $# -eq 0 ]; then : > /verif/seeded/RESULTS.txt; fi
+cat $tmp/*.txt >> /verif/seeded/RESULTS.txt
+sort -u -o /verif/seeded/RESULTS.txt /verif/seeded/RESULTS.txt
+rm -rf $tmp
